@@ -274,6 +274,18 @@ class CallMixin:
         run = self.run
         spec = cb.spec if isinstance(cb.spec, dict) else {}
         self.fire("callback", cb, args, kwargs, node, frame)
+        if self.contract is not None and self.ctx is not None and frame is not None:
+            for pat, clauses in self.contract.callsite_pre.items():
+                if cb.name.endswith(pat):
+                    for lbl, ex in clauses.items():
+                        f = self.inv_frame(frame, {"args": VTuple(args), "arg0": args[0] if args else NONE})
+                        self.pure += 1
+                        try:
+                            t = self.truthy(self.eval(self.verifier.parse_clause(ex), f))
+                        finally:
+                            self.pure -= 1
+                        self.ctx.oblige(self, "callsite-pre", f"{pat.lstrip('.')}:{lbl}", t,
+                                        f"call of {cb.name}", False, text=ex)
         idx = len(run.calls)
         entry = {"name": cb.name, "args": list(args), "kwargs": dict(kwargs), "outcome": None, "value": None, "idx": idx}
         run.calls.append(entry)
